@@ -468,6 +468,10 @@ pub mod platform;
 pub mod string_dict;
 pub mod value;
 
+// Verification hooks (only with `--cfg tsrun_verif`; see src/verif.rs)
+#[cfg(tsrun_verif)]
+pub mod verif;
+
 // C FFI module (only when c-api feature is enabled)
 #[cfg(feature = "c-api")]
 pub mod ffi;
